@@ -233,7 +233,8 @@ def gen_case(world, tier, prop):
       extra = [token() for _ in range(rng.randint(1, 2))]
     ops.append({'op': 'call', 'b': rng.randrange(nb), 'extra': extra,
                 'over': over})
-  return {'defs': defs, 'root': {'share': root['id']}, 'ops': ops}
+  return {'defs': defs, 'root': {'share': root['id']}, 'ops': ops,
+          'decoys': rng.random() < 0.5}
 
 
 # --------------------------------------------------------------------------
@@ -276,6 +277,16 @@ def run(case):
     return [n for n in reachable_nodes(mroot) if n.btype == 'Config']
 
   n_cfg = len(reachable_configs())
+  if case.get('decoys'):
+    # process history: factory-free Partials built and dropped earlier; their
+    # built containers are dead and their addresses get recycled below
+    import gc
+    for i in range(40):
+      fdl.build(fdl.Partial(fns['n0'], uid=-i, x=[i, [i], {'q': i}],
+                            y={'k': [i], 'm': (i, [i])}, z=(i, [i, [i]])))
+    gc.collect()
+    del rec.log[:]
+    probes['with_decoy_history'] = 1
   for idx, op in enumerate(case['ops']):
     res['steps'] += 1
     if op['op'] == 'build':
